@@ -54,7 +54,7 @@ func main() {
 			extras = append(extras, next())
 		case "-n":
 			pad, _ = strconv.Atoi(next())
-		case "-barrier":
+		case "-barrier", "-bgroup":
 			next()
 		default:
 			fmt.Fprintln(os.Stderr, "op: unknown flag", a[i])
